@@ -13,13 +13,21 @@
  *   r <ns> <ver|-> <flags>  g_irepository_require (NULL, ns, ver, flags, &err)
  *   q <dir> <ns> <ver|-> <flags>   g_irepository_require_private (NULL, dir, ns, ver, flags, &err)
  *   m <alias> <flags>       g_typelib_new_from_memory (copy of blob) + g_irepository_load_typelib (NULL, t, flags, &err)
- *   o                       observe only
+ *   O                       print the full observation now (the check asks for it after the last
+ *                           operation of every history, and wherever its model needs it earlier)
  *   E
  *
- * The search path and the default repository are process globals, so every history is executed
- * in a freshly forked child of this (never initialised) process: fork without exec (a few children
- * are kept in flight to hide scheduling latency; every child still sees only its own history).
- * The child writes, for every operation,
+ * The search path and the default repository are process globals.  Two execution modes
+ * (directive `mode fork` / `mode reset`, default fork):
+ *   fork:  every history is executed in a freshly forked child of this (never initialised) process,
+ *          fork without exec (a few children are kept in flight; each sees only its own history);
+ *   reset: init_globals() is run once; before every history the default repository is replaced by a
+ *          new GIRepository object (g_object_new, exactly what init_globals does) and the search
+ *          path is cut back to the list init_globals produced (prepended nodes are in front of it).
+ *          The check replays a stated part of the histories in both modes and requires identical
+ *          transcripts.
+ * For every operation the executing process writes "> op", "= result", "C n"; for every `O` line the
+ * L/N lines:
  *
  *   > <op text>
  *   = ok [<returned namespace>] | = err <domain> <code>
@@ -39,8 +47,13 @@
 #include <sys/types.h>
 #include <sys/wait.h>
 
-#include <glib.h>
-#include "girepository.h"
+/* The repository implementation is compiled INTO this translation unit (the unmodified source text
+ * of /repo, found through the -I of the build): that gives the driver access to the two file-scope
+ * statics `default_repository` and `typelib_search_path`, which "reset" mode puts back to their
+ * just-initialised values between histories instead of forking (fork costs 1.3-4 ms on the
+ * verification VM and does not scale over cores).  The linker then never pulls girepository.o from
+ * the static library (every symbol it would provide is already defined here). */
+#include "girepository.c"
 
 #define MAXNS 8
 #define MAXVER 12
@@ -190,6 +203,8 @@ opt (const char *s)
   return strcmp (s, "-") == 0 ? NULL : s;
 }
 
+static int mode_reset;
+
 static void
 run_op (char *line)
 {
@@ -197,6 +212,13 @@ run_op (char *line)
   GError *error = NULL;
   int pre_crit;
 
+  if (strcmp (line, "O") == 0)
+    {
+      observe ();
+      if (!mode_reset)
+        fflush (stdout);
+      return;
+    }
   printf ("> %s\n", line);
   n_crit = 0;
   switch (line[0])
@@ -251,23 +273,20 @@ run_op (char *line)
         report (ret != NULL, ret, error);
         break;
       }
-    case 'o':
-      printf ("= ok\n");
-      break;
     default:
       exit (3);
     }
   pre_crit = n_crit;
   printf ("C %d\n", pre_crit);
-  observe ();
-  fflush (stdout);
+  if (!mode_reset)
+    fflush (stdout);
 }
 
 /* Up to n_slots children are in flight (each writes into its own pipe; a transcript is far smaller
  * than the pipe buffer); transcripts are copied to stdout in history order. */
 #define MAXSLOTS 32
 static struct { pid_t pid; int fd; char *id; } slots[MAXSLOTS];
-static int n_slots = 8, slot_head, slot_count;
+static int n_slots = 2, slot_head, slot_count;
 
 static void
 drain_one (void)
@@ -299,11 +318,49 @@ drain_one (void)
   slot_count--;
 }
 
+static int reset_ready;
+static GSList *path_after_init;
+
+static void
+run_history_reset (const char *id)
+{
+  int i;
+
+  if (!reset_ready)
+    {
+      init_globals ();
+      path_after_init = typelib_search_path;
+      reset_ready = 1;
+    }
+  /* drop what earlier histories prepended */
+  while (typelib_search_path != path_after_init)
+    {
+      GSList *next = typelib_search_path->next;
+      g_free (typelib_search_path->data);
+      g_slist_free_1 (typelib_search_path);
+      typelib_search_path = next;
+    }
+  if (default_repository != NULL)
+    g_object_unref (default_repository);
+  default_repository = g_object_new (G_TYPE_IREPOSITORY, NULL);
+
+  printf ("H %s\n", id);
+  for (i = 0; i < n_ops; i++)
+    run_op (ops[i]);
+  printf ("X %s exit 0\n", id);
+}
+
 static void
 run_history (const char *id)
 {
   pid_t pid;
   int i, k, fds[2];
+
+  if (mode_reset)
+    {
+      run_history_reset (id);
+      return;
+    }
 
   if (slot_count >= n_slots)
     drain_one ();
@@ -386,6 +443,10 @@ main (int argc, char **argv)
           strcpy (id, line + 2);
           in_hist = 1;
         }
+      else if (strcmp (line, "mode reset") == 0)
+        mode_reset = 1;
+      else if (strcmp (line, "mode fork") == 0)
+        mode_reset = 0;
       else if (strncmp (line, "ns ", 3) == 0)
         {
           char *tok = strtok (line + 3, " ");
